@@ -104,6 +104,7 @@ type recSigner struct {
 	inUse   int32
 	overlap int32
 	fail    bool
+	failURL map[string]bool // request URLs whose signing fails
 }
 
 func (s *recSigner) SignRequest(pKey crypto.PrivateKey, pubKeyId string, r *http.Request, body []byte) error {
@@ -120,8 +121,11 @@ func (s *recSigner) SignRequest(pKey crypto.PrivateKey, pubKeyId string, r *http
 	s.mu.Unlock()
 	r.Header.Set("Signature", "recorded")
 	atomic.AddInt32(&s.inUse, -1)
-	if s.fail {
-		return errors.New("verif: signer failure")
+	if s.fail || s.failURL[r.URL.String()] {
+		// like the HTTP client's errors, the signer's error says which
+		// request it refused, so that "names each failure" can be decided
+		// on the batch error's text
+		return errors.New("verif: signer refused " + r.URL.String())
 	}
 	return nil
 }
@@ -491,9 +495,52 @@ func runDeliver(e *env) {
 		}
 		e.r.NonTrivial(fmt.Sprintf("deliver|%d", code))
 	}
+	// signer failure must surface and nothing may be sent
+	{
+		cl := &recClient{plan: map[string]int{}, deflt: 200}
+		ps := &recSigner{fail: true}
+		tp := e.newTransport(cl, &recSigner{}, ps)
+		err := tp.Deliver(bg, payload, mustURL("https://remote.example/inbox"))
+		e.r.Eval(1)
+		if err == nil || len(cl.take()) != 0 {
+			e.viol("deliver-sent-unsigned", "signer failure", "signer fails", "a request was sent or no error returned although signing failed")
+		}
+		e.r.NonTrivial("deliver|signer-fails")
+	}
+	// a recipient / IRI no request can be built for is an error, not a send
+	{
+		cl := &recClient{plan: map[string]int{}, deflt: 200}
+		tp := e.newTransport(cl, &recSigner{}, &recSigner{})
+		err := tp.Deliver(bg, payload, badURL(1))
+		_, err2 := tp.Dereference(bg, badURL(2))
+		e.r.Eval(2)
+		if err == nil || err2 == nil || len(cl.take()) != 0 {
+			e.viol("unbuildable-request-not-reported", "non-numeric port", badURL(1).String(), fmt.Sprintf("Deliver err=%v Dereference err=%v", err, err2))
+		}
+		e.r.NonTrivial("deliver|unbuildable")
+	}
 }
 
-var outcomeClasses = []int{200, 201, 202, 204, 301, 400, 404, 500, -1}
+// Outcome classes of one recipient in a batch plan: an HTTP status, -1 = the
+// HTTP client returns an error, -2 = the signer refuses this request (nothing
+// may be sent to that recipient), -3 = the recipient URL cannot be turned into
+// a request at all (see badURL).
+var outcomeClasses = []int{200, 201, 202, 204, 301, 400, 404, 500, -1, -2, -3}
+
+// badURL builds a *url.URL value that net/http refuses to build a request for
+// (its port is not a number); its String() is the recipient's name in plans.
+func badURL(i int) *url.URL {
+	return &url.URL{Scheme: "https", Host: fmt.Sprintf("badhost%d.example:port", i), Path: fmt.Sprintf("/inbox/%d", i)}
+}
+
+func recipientURL(r string) *url.URL {
+	if strings.HasPrefix(r, "https://badhost") {
+		var i int
+		fmt.Sscanf(r, "https://badhost%d.example", &i)
+		return badURL(i)
+	}
+	return mustURL(r)
+}
 
 // runBatch executes one batch and judges it.
 func runBatch(e *env, recipients []string, plan map[string]int, tag string) {
@@ -502,11 +549,16 @@ func runBatch(e *env, recipients []string, plan map[string]int, tag string) {
 	}
 	payload := []byte(fmt.Sprintf(`{"type":"Note","id":"https://local.example/n/%s"}`, tag))
 	cl := &recClient{plan: plan, deflt: 200, yield: true}
-	ps := &recSigner{}
+	ps := &recSigner{failURL: map[string]bool{}}
+	for u, st := range plan {
+		if st == -2 {
+			ps.failURL[u] = true
+		}
+	}
 	tp := e.newTransport(cl, &recSigner{}, ps)
 	var urls []*url.URL
 	for _, r := range recipients {
-		urls = append(urls, mustURL(r))
+		urls = append(urls, recipientURL(r))
 	}
 	done := make(chan error, 1)
 	go func() { done <- tp.BatchDeliver(bg, payload, urls) }()
@@ -516,7 +568,13 @@ func runBatch(e *env, recipients []string, plan map[string]int, tag string) {
 	case err = <-done:
 	case <-time.After(30 * time.Second):
 		e.hung = true // later batches are skipped: the hung one leaks its goroutines
-		if int(atomic.LoadInt64(&cl.doCount)) >= len(recipients) {
+		sendable := 0
+		for _, r := range recipients {
+			if plan[r] != -2 && plan[r] != -3 {
+				sendable++
+			}
+		}
+		if int(atomic.LoadInt64(&cl.doCount)) >= sendable {
 			failing := 0
 			for _, r := range recipients {
 				if st, ok := plan[r]; ok && !(st == 200 || st == 201 || st == 202) {
@@ -532,21 +590,40 @@ func runBatch(e *env, recipients []string, plan map[string]int, tag string) {
 	e.r.Eval(1)
 	reqs := cl.take()
 	calls := ps.take()
-	want := map[string]int{}
+	want := map[string]int{}     // HTTP requests expected per URL
+	wantSign := map[string]int{} // signer calls expected per URL
 	for _, r := range recipients {
-		want[r]++
+		switch plan[r] {
+		case -3: // no request can be built: neither signed nor sent
+		case -2: // signing refused: signed once, never sent
+			wantSign[r]++
+		default:
+			want[r]++
+			wantSign[r]++
+		}
 	}
 	got := map[string]int{}
 	for _, c := range reqs {
 		got[c.URL]++
 	}
-	for u, n := range want {
-		if got[u] != n {
-			e.viol("batch-attempt-count", fmt.Sprintf("want %d got %d", n, min(got[u], n+1)), cas, fmt.Sprintf("%s attempted %d times, listed %d times", u, got[u], n))
+	gotSign := map[string]int{}
+	for _, c := range calls {
+		gotSign[c.URL]++
+	}
+	for _, r := range recipients {
+		if n := want[r]; got[r] != n {
+			feature := fmt.Sprintf("want %d got %d", n, min(got[r], n+1))
+			if plan[r] == -2 {
+				feature = "sent although signing failed"
+			}
+			e.viol("batch-attempt-count", feature, cas, fmt.Sprintf("%s attempted %d times, expected %d", r, got[r], n))
+		}
+		if n := wantSign[r]; gotSign[r] != n {
+			e.viol("batch-sign-count", fmt.Sprintf("want %d got %d", n, min(gotSign[r], n+1)), cas, fmt.Sprintf("%s signed %d times, expected %d", r, gotSign[r], n))
 		}
 	}
 	for u := range got {
-		if want[u] == 0 {
+		if want[u] == 0 && wantSign[u] == 0 && plan[u] != -3 {
 			e.viol("batch-unlisted-recipient", "extra", cas, u)
 		}
 	}
@@ -606,6 +683,9 @@ func runBatches(e *env, seed int64, nRandom int) {
 			var rec []string
 			for i := 0; i < size; i++ {
 				u := fmt.Sprintf("https://h%d.example/inbox/%d", i, i)
+				if outcomeClasses[idx[i]] == -3 {
+					u = badURL(i).String()
+				}
 				rec = append(rec, u)
 				plan[u] = outcomeClasses[idx[i]]
 			}
@@ -654,6 +734,11 @@ func runBatches(e *env, seed int64, nRandom int) {
 					plan[u] = 100 + g.Intn(500)
 				} else if g.Chance(1, 6) {
 					plan[u] = -1
+				} else if g.Chance(1, 8) {
+					plan[u] = -2
+				} else if g.Chance(1, 10) {
+					u = badURL(j).String()
+					plan[u] = -3
 				} else {
 					plan[u] = []int{200, 201, 202}[g.Intn(3)]
 				}
